@@ -655,6 +655,11 @@ class Unit:
 _unit_cache = {}
 
 
+def known_names():
+    from .inline import known_functions
+    return known_functions()
+
+
 def load_unit(name, extra_flags=(), src=None, root=None, tag=""):
     """Parse instantiation unit tu/<name>.cpp against the current /repo tree."""
     key = (name, tuple(extra_flags), src, root, tag)
@@ -675,10 +680,17 @@ def load_unit(name, extra_flags=(), src=None, root=None, tag=""):
     renamed = normalise(d)
     if not os.environ.get("FRG_NO_INLINE"):
         from .inline import inline_unit
+        import copy as _copy
+        pristine = {f["did"]: _copy.deepcopy(f) for f in d["functions"] if f.get("uq") not in known_names()}
         drop = inline_unit(d)
         if drop:
             d["functions"] = [f for f in d["functions"] if f["did"] not in drop]
+    else:
+        drop, pristine = set(), {}
     u = Unit(name, d, src)
+    # new helpers that were spliced into all their callers: not analysed as entry points, but available to rules
+    # that read the statement tree (mirror-arm comparison) so that a case split moved into a helper is still seen
+    u.helpers = [Fn(u, pristine[did]) for did in sorted(drop) if did in pristine]
     u.renamed = renamed
     _unit_cache[key] = u
     return u
